@@ -240,7 +240,7 @@ Ltac aok :=
 
 Lemma G2_step e s L s' l : G1 s L -> G2 s -> step e s = (s', l) -> G2 s'.
 Proof.
-  intros HG1 HG H. destruct e as [sp|a|a|a|a|a code hasloc|a|a]; simpl in H.
+  intros HG1 HG H. destruct e as [sp|a|a|a|a|a code hasloc|a|a|a|a]; simpl in H.
   - (* EFetch *)
     eapply fetch_impl_G2; [| |exact H].
     + exact (proj2 HG1).
@@ -311,6 +311,20 @@ Proof.
       eapply G2_he; [exact HG|exact En| |exact H]. intros ->. clear - Hok. aok.
     + unfold get_st in H. rewrite En in H. injection H as <- <-. exact HG.
   - (* EReset *)
+    destruct (nth_error (s_atts s) a) as [[f hop sp y]|] eqn:En.
+    + rewrite (nth_get_st _ _ _ _ _ _ En) in H.
+      destruct y as [tm|cb rel t [| |]|]; try (injection H as <- <-; exact HG).
+      assert (Hok := HG _ _ En).
+      eapply G2_he; [exact HG|exact En| |exact H]. intros ->. clear - Hok. aok.
+    + unfold get_st in H. rewrite En in H. injection H as <- <-. exact HG.
+  - (* EMalformed *)
+    destruct (nth_error (s_atts s) a) as [[f hop sp y]|] eqn:En.
+    + rewrite (nth_get_st _ _ _ _ _ _ En) in H.
+      destruct y as [tm|cb rel t [| |]|]; try (injection H as <- <-; exact HG).
+      assert (Hok := HG _ _ En).
+      eapply G2_he; [exact HG|exact En| |exact H]. intros ->. clear - Hok. aok.
+    + unfold get_st in H. rewrite En in H. injection H as <- <-. exact HG.
+  - (* EBadFraming *)
     destruct (nth_error (s_atts s) a) as [[f hop sp y]|] eqn:En.
     + rewrite (nth_get_st _ _ _ _ _ _ En) in H.
       destruct y as [tm|cb rel t [| |]|]; try (injection H as <- <-; exact HG).
@@ -473,6 +487,26 @@ Proof.
   destruct (he_after_set _ _ _ _ _ _ _ _ _ _ En H) as [(_ & _ & D)|(E & _)]; [exact D|discriminate E].
 Qed.
 
+Lemma progress_malformed s a f hop sp rel t :
+  nth_error (s_atts s) a = Some (mkAtt f hop sp (AConn true rel t POpen)) ->
+  exists s' l, step (EMalformed a) s = (s', l) /\ In (deliver hop f OClosedMalformed) l.
+Proof.
+  intro En. simpl. rewrite (nth_get_st _ _ _ _ _ _ En).
+  destruct (handle_exception a OClosedMalformed (set_st a (AConn true rel t PFinished) s)) as [s' l] eqn:H.
+  exists s', l. split; [reflexivity|].
+  destruct (he_after_set _ _ _ _ _ _ _ _ _ _ En H) as [(_ & _ & D)|(E & _)]; [exact D|discriminate E].
+Qed.
+
+Lemma progress_badframing s a f hop sp rel t :
+  nth_error (s_atts s) a = Some (mkAtt f hop sp (AConn true rel t POpen)) ->
+  exists s' l, step (EBadFraming a) s = (s', l) /\ In (deliver hop f OClosedCallback) l.
+Proof.
+  intro En. simpl. rewrite (nth_get_st _ _ _ _ _ _ En).
+  destruct (handle_exception a OClosedCallback (set_st a (AConn true rel t PFinished) s)) as [s' l] eqn:H.
+  exists s', l. split; [reflexivity|].
+  destruct (he_after_set _ _ _ _ _ _ _ _ _ _ En H) as [(_ & _ & D)|(E & _)]; [exact D|discriminate E].
+Qed.
+
 Lemma progress_respond s a f hop sp rel t code hasloc :
   nth_error (s_atts s) a = Some (mkAtt f hop sp (AConn true rel t POpen)) ->
   should_follow sp code hasloc = false ->
@@ -518,10 +552,14 @@ Theorem machine_progress : forall m es s L, exec es (init m) = (s, L) ->
      exists s' l y, step (ERespond a code hasloc) s = (s', l) /\
        nth_error (s_atts s') (length (s_atts s)) = Some (mkAtt f true (redirected_spec sp) y) /\
        holds (mkAtt f true (redirected_spec sp) y) = true /\
-       (forall g o, ~ In (LDone g o) l /\ ~ In (LLost g o) l)).
+       (forall g o, ~ In (LDone g o) l /\ ~ In (LLost g o) l)) /\
+  (forall rel t, x = AConn true rel t POpen ->
+     exists s' l, step (EMalformed a) s = (s', l) /\ In (deliver hop f OClosedMalformed) l) /\
+  (forall rel t, x = AConn true rel t POpen ->
+     exists s' l, step (EBadFraming a) s = (s', l) /\ In (deliver hop f OClosedCallback) l).
 Proof.
   intros m es s L H a f hop sp x En. destruct (MInv_exec _ _ _ _ H) as (H1 & _ & _).
-  split; [|split; [|split; [|split; [|split; [|split]]]]].
+  split; [|split; [|split; [|split; [|split; [|split; [|split; [|split]]]]]]].
   - intros ->. eapply progress_qtimeout; eauto.
   - intros rel t ->. eapply progress_connfail; eauto.
   - intros rel k ph ->. eapply progress_ctimeout; eauto.
@@ -529,6 +567,8 @@ Proof.
   - intros rel t ->. eapply progress_reset; eauto.
   - intros rel t code hasloc -> Ef. eapply progress_respond; eauto.
   - intros rel t code hasloc -> Ef. eapply progress_redirect; eauto.
+  - intros rel t ->. eapply progress_malformed; eauto.
+  - intros rel t ->. eapply progress_badframing; eauto.
 Qed.
 
 Print Assumptions machine_no_bug.
